@@ -279,3 +279,82 @@ func cmdC13(args []string) {
 }
 
 var _ = http.StatusOK
+
+// ---------------------------------------------------------------- binding G: replay of PatParseMC's byte strings
+
+func cmdC13Gen(args []string) {
+	fs := flag.NewFlagSet("c13gen", flag.ExitOnError)
+	cases := fs.String("cases", "", "byte strings written by TLC (PatParseMC.tla)")
+	out := fs.String("out", "", "summary JSON")
+	fs.Parse(args)
+	type cs struct {
+		B    []int `json:"b"`
+		Acc  bool  `json:"acc"`
+		Doc  bool  `json:"doc"`
+		Grey bool  `json:"grey"`
+	}
+	var n, accepted, drift, judged int
+	var drifts, violations []map[string]any
+	var samples []any
+	readCases(*cases, func(line []byte) {
+		var c cs
+		if err := json.Unmarshal(line, &c); err != nil {
+			fatal("bad case: %v", err)
+		}
+		s := fromCodes(c.B)
+		n++
+		var got, valueOK, self, panicked bool
+		errType := ""
+		func() {
+			defer func() {
+				if p := recover(); p != nil {
+					panicked = true
+				}
+			}()
+			m, err := cors.NewMiddleware(cors.Config{Origins: []string{s}, ExtraConfig: cors.ExtraConfig{DangerouslyTolerateSubdomainsOfPublicSuffixes: true}})
+			got = err == nil
+			if got {
+				a, p := originAllowedByMiddleware(m.Wrap(okHandler), s)
+				self = a && p
+				return
+			}
+			for e := range cfgerrors.All(err) {
+				if x, ok := e.(*cfgerrors.UnacceptableOriginPatternError); ok && x != nil {
+					errType, valueOK = "UnacceptableOriginPatternError", x.Value == s
+				} else {
+					errType = fmt.Sprintf("%T", e)
+				}
+			}
+		}()
+		if got {
+			accepted++
+		}
+		if got != c.Acc {
+			drift++
+			if len(drifts) < 10 {
+				drifts = append(drifts, map[string]any{"pattern": s, "model_accepts": c.Acc, "real_accepts": got})
+			}
+		}
+		if !c.Grey && !panicked {
+			judged++
+			why := ""
+			switch {
+			case c.Doc && !got:
+				why = "a pattern of the documented form was rejected"
+			case !c.Doc && got:
+				why = "a string that is not of the documented form was accepted"
+			case !got && (errType != "UnacceptableOriginPatternError" || !valueOK):
+				why = "rejected, but not with an UnacceptableOriginPatternError naming the string"
+			case got && !strings.Contains(s, "*") && !self:
+				why = "an accepted wildcard-free pattern presented verbatim as Origin is not allowed"
+			}
+			if why != "" && len(violations) < 30 {
+				violations = append(violations, map[string]any{"pattern": s, "why": why, "accepted": got})
+			}
+		}
+		if got && len(samples) < 5 && n%977 == 1 {
+			samples = append(samples, s)
+		}
+	})
+	writeJSON(*out, map[string]any{"cases": n, "accepted": accepted, "judged": judged, "drift": drift, "drifts": drifts, "violations": violations, "samples": samples})
+}
